@@ -252,7 +252,44 @@ def r16_7(ctx: Ctx) -> None:
                   "empty (source '/' or 'c:') is replaced by the absolute source path and stored as such", construct="filename fallback guard")
 
 
+def r16_8(ctx: Ctx, rule: str = "R16.8") -> None:
+    """a member name cannot contain U+0000: the Names record stores NUL-terminated UTF-16 strings, an embedded NUL splits the name in two
+    and shifts every later name.  Both gates refuse it: check_archive_path (writestr/writef) returns False, the arcname sanitiser
+    (write/writeall) raises."""
+    def nul_test(f):
+        for n in walk(f.node):
+            if isinstance(n, ast.Compare) and len(n.ops) == 1 and isinstance(n.ops[0], ast.In) and isinstance(n.left, ast.Constant) and n.left.value == "\x00":
+                return n
+        return None
+    c = ctx.prog.func("helpers", "check_archive_path")
+    t = nul_test(c)
+    ok = False
+    if t is not None:
+        cfg = cfg_of(c.node)
+        tn = next((x for x in cfg.nodes if x.kind == "test" and any(y is t for y in ast.walk(x.ast))), None)
+        if tn is not None:
+            te = next(e for e in tn.succ if e.kind == "true")
+            ok = any(n.kind == "stmt" and isinstance(n.ast, ast.Return) and isinstance(n.ast.value, ast.Constant) and n.ast.value.value is False for n in cfg.reachable_from(te)) \
+                and not any(n.kind == "stmt" and isinstance(n.ast, ast.Return) and isinstance(n.ast.value, ast.Constant) and n.ast.value.value is True and cfg.dominates(te, n)
+                            for n in cfg.reachable_from(te))
+    ctx.check(ok, rule, c, c.node, "check_archive_path refuses names with an embedded NUL",
+              "check_archive_path accepts a name that contains U+0000: writestr(data, 'a\\0b') stores a Names record with more strings than members, every later member gets "
+              "the wrong name and py7zr's own reader loses the last one", construct="NUL in writestr name")
+    s_ = shared.szf(ctx, "_sanitize_archive_arcname")
+    t = nul_test(s_)
+    ok = False
+    if t is not None:
+        cfg = cfg_of(s_.node)
+        tn = next((x for x in cfg.nodes if x.kind == "test" and any(y is t for y in ast.walk(x.ast))), None)
+        if tn is not None:
+            te = next(e for e in tn.succ if e.kind == "true")
+            ok = q.branch_always_raises(cfg, te)
+    ctx.check(ok, rule, s_, s_.node, "the arcname sanitiser refuses names with an embedded NUL",
+              "_sanitize_archive_arcname lets an arcname with U+0000 through to the member table (write/writeall with arcname)", construct="NUL in arcname")
+
+
 def run(ctx: Ctx) -> None:
+    r16_8(ctx)
     r16_7(ctx)
     r16_6(ctx)
     r16_1(ctx)
